@@ -507,6 +507,10 @@ func vf5Case(line string) (res string) {
 	}()
 	ops := tk[3:]
 	var out []string
+	// the start value of the Identifier counter is the implementation's choice: reported, not compared
+	f.mu.Lock()
+	out = append(out, fmt.Sprintf("id0=%d", f.id))
+	f.mu.Unlock()
 	var pair []string
 	if tk[0] == "conc" {
 		k := -1
@@ -658,8 +662,8 @@ func vf5Case(line string) (res string) {
 		}
 		r.track()
 	}
-	if len(out) == 0 {
-		return "empty"
+	if len(out) == 1 {
+		out = append(out, "empty")
 	}
 	return strings.Join(out, " ")
 }
